@@ -134,12 +134,17 @@ def k_assoc(run, case):
     exp1, exp2 = gen.read_views(gen.make_evo(a1, m1, flavour=f1)), gen.read_views(gen.make_evo(a2, m2, flavour=f2))
     s1, s2 = contracts.field_snapshot(tr1), contracts.field_snapshot(tr2)
     use_default_offset = offset == 0.0 and rng.random() < .5
+    # optional display names (the command line tools pass file / topic names, any characters)
+    names = {}
+    if rng.random() < .3:
+        names = {"first_name": ["gt 100%.tum", "ref", "/topic_%d"][rng.integers(3)],
+                 "snd_name": ["est_%d (v2).txt", "%s", "é{0}"][rng.integers(3)]}
     with gen.logging_state(rng) as log_state:
         if use_default_offset:
-            out = contracts.outcome_of(sync.associate_trajectories, tr1, tr2, gen.spell_float(rng, max_diff))
+            out = contracts.outcome_of(sync.associate_trajectories, tr1, tr2, gen.spell_float(rng, max_diff), **names)
         else:
             out = contracts.outcome_of(sync.associate_trajectories, tr1, tr2, gen.spell_float(rng, max_diff),
-                                       gen.spell_float(rng, offset))
+                                       gen.spell_float(rng, offset), **names)
     order = "first shorter" if len(t1) < len(t2) else "second shorter" if len(t1) > len(t2) else "equal"
     sign = "offset>0" if offset > 0 else "offset<0" if offset < 0 else "offset=0"
     run.seen(case, core.digest(t1, t2, max_diff, offset), cls=["stamps:" + kind, order + ", " + sign, "evo logger " + log_state,
